@@ -2,7 +2,7 @@
    Statement only; proved in Inst/Codec.v from the generic theorem Lib/ClassRT.object_roundtrip and
    boolean checks evaluated on the programs regenerated from /repo. *)
 From VB Require Import Base IR Sem StreamFacts EvalFacts Roundtrip ClassRT.
-From VB Require Import Classes Consts Common Codec.
+From VB Require Import Classes Consts Common CodecDefs Codec.
 Local Open Scope Z_scope.
 
 (* For every class of the library outside the committed exception list, every API-expressible
